@@ -13,11 +13,13 @@
 
 extern const char *g_jwk_tracked_str; extern const void *g_jwk_tracked_bin;
 extern const char *g_push_name_of_tracked, *g_pkey_type_name, *g_ec_point_curve;
-extern int g_push_count, g_fromdata_selection, g_pem_private;
+extern unsigned g_push_count; extern int g_fromdata_selection, g_pem_private;
+extern const char *g_dec_last_src; extern const void *g_dec_last_res; extern int g_dec_last_len;
 extern size_t g_ossl_bits;
 extern const void *g_ec_point_x, *g_ec_point_y;
 #define JWK_GHOSTS g_jwk_tracked_bin, g_push_name_of_tracked, g_pkey_type_name, g_ec_point_curve, g_push_count, \
-	g_fromdata_selection, g_pem_private, g_ec_point_x, g_ec_point_y, g_lib_fail, g_json_version, g_json_mutations
+	g_fromdata_selection, g_pem_private, g_ec_point_x, g_ec_point_y, g_lib_fail, g_json_version, g_json_mutations, \
+	g_dec_last_src, g_dec_last_res, g_dec_last_len
 
 /* an item as jwk_process_one hands it over: zeroed but for kty and json */
 #define ITEM_BLANK(item) (__CPROVER_is_fresh(item, sizeof(*item)) && (item)->error == 0 && (item)->error_msg[0] == 0 && \
